@@ -21,8 +21,10 @@ witness that the check replays on the real library (corpus/C06/two-groups.json),
 `_partial` form with the excluded class explicit.  Two other parts were false of the pinned commit
 and hold since the repairs a6564de (inherited entries are resolved again on the subclass) and
 7e0a217 (function form de-duplicates the Parameter names): `C06_full_deps_holds`, `C06_full_fn_holds`.
-Not modelled: dotted dependencies (C07), async/generator methods, `param.trigger`, methods that
-assign parameters themselves (cascades are C03/C04).
+Scope of the theorems: methods that only log.  An on_init method that assigns a parameter during
+construction is modelled (`instantiateA`) and judged by the oracle (`specInit`) only — no theorem.
+Not modelled: dotted dependencies (C07), async/generator methods, `param.trigger`, nested batches,
+methods that assign parameters after construction (cascades are C03/C04).
 -/
 import ParamVerif.Depends.InstanceLemmas
 
@@ -143,6 +145,19 @@ theorem entry_deps_are_deps_of_resolved_method (h : Hierarchy) (fuel : Nat) (c :
   · obtain ⟨_, _, di, _, _, _, _, _, hdeps, ho⟩ := hres
     rw [ho]
     exact depsOn_cls h c fuel (some di) e.deps hdeps
+
+/-- **C06 (directly, through a slot spec, or through another method it names).**  The registered
+dependencies of every entry are exactly the closure `DependsOn` — an inductive description that does
+not mention the recursion of `_params_depended_on`: a key is registered iff a spec of the resolved
+method names it as a Parameter of the class (an undecorated function names every Parameter), or a
+spec names a function which, as resolved on the class, depends on it. -/
+theorem entry_deps_are_the_closure (h : Hierarchy) (fuel : Nat) (c : Cls) (t : List Entry)
+    (hwf : wfClassB h c = true) (ht : dependsTable h fuel c = .ok t) (e : Entry) (he : e ∈ t) :
+    ∃ k m, resolveMethod h c e.name = some (k, m) ∧ ∀ key, key ∈ e.deps.map keyOf ↔ DependsOn h c m.dinfo key := by
+  obtain ⟨⟨k, m, di, hr, hdi, _, _, _, hdeps, _⟩, _, _⟩ := entry_deps_are_deps_of_resolved_method h fuel c t hwf ht e he
+  refine ⟨k, m, hr, fun key => ?_⟩
+  rw [hdi]
+  exact depsOn_iff_dependsOn h c fuel (some di) e.deps hdeps key
 
 /-- **Full statement (a)**, false of the pinned commit (inherited tuples were copied verbatim), true
 since a6564de: `method_dependencies` and the registered dependencies agree for every entry. -/
@@ -282,6 +297,22 @@ theorem on_init_adds_exactly_one_call (table : List Entry) (vals : List (Key × 
   · rw [if_pos hm, if_pos (this.1 hm)]
   · rw [if_neg hm, if_neg (fun hh => hm (this.2 hh))]
 
+/-- **C06 (all programs, from the hierarchy to the instance).**  For a well-formed hierarchy, an instance
+of class `c` and any program of assignments, slot assignments, `update`s and batches: a registered
+method whose dependencies are of one kind is called, over the whole program, exactly as often as the
+specification expects operation by operation (`expectedProgram`: one call per operation that changes
+one of its dependencies), where its dependencies are those of the method `c` resolves (previous
+theorems); and the instance is idle again at the end. -/
+theorem program_from_hierarchy (h : Hierarchy) (fuel : Nat) (c : Cls) (t : List Entry) (vals : List (Key × Int))
+    (hwf : wfClassB h c = true) (ht : dependsTable h fuel c = .ok t) (e : Entry) (he : e ∈ t)
+    (hkind : ∀ d1 ∈ e.deps, ∀ d2 ∈ e.deps, d1.what = d2.what) (ops : List Op) (w' : IWorld)
+    (hr : runOps (instantiate t vals) ops = (true, w')) :
+    w'.log.count e.name = (instantiate t vals).log.count e.name + expectedProgram (e.deps.map keyOf) vals ops ∧
+      InstanceWorld t w' :=
+  program_calls t e (table_one_entry_per_method h fuel c t hwf ht) he
+    (entry_deps_are_deps_of_resolved_method h fuel c t hwf ht e he).2.2 hkind ops _ w'
+    (instantiate_instanceWorld t vals) hr
+
 /-! ## Function form -/
 
 /-- **C06 (the same holds for functions decorated with Parameter-object dependencies).**  For any
@@ -364,5 +395,11 @@ example : (runOp (instantiate exTable exVals) (.simple (.set ⟨"p", "value"⟩ 
 example : (runOp (instantiate exTable exVals) (.batch [.set ⟨"p", "value"⟩ 1, .update [("q", 2), ("p", 3)]])).2.log =
     ["n", "m", "n"] := by decide
 example : InstanceWorld exTable (instantiate exTable exVals) := instantiate_instanceWorld _ _
+example : (runOps (instantiate exTable exVals) [.simple (.set ⟨"p", "value"⟩ 1), .simple (.set ⟨"p", "value"⟩ 1),
+    .batch [.set ⟨"q", "value"⟩ 2, .set ⟨"p", "value"⟩ 1]]).2.log.count "n" = 1 + expectedProgram [⟨"p", "value"⟩, ⟨"q", "value"⟩] exVals
+      [.simple (.set ⟨"p", "value"⟩ 1), .simple (.set ⟨"p", "value"⟩ 1), .batch [.set ⟨"q", "value"⟩ 2, .set ⟨"p", "value"⟩ 1]] := by decide
+example : DependsOn exH 0 (some ⟨[⟨"m", "value"⟩, ⟨"q", "value"⟩], true, false, true⟩) ⟨"p", "value"⟩ :=
+  .via _ ⟨"m", "value"⟩ 0 ⟨"m", some ⟨[⟨"p", "value"⟩], true, false, false⟩⟩ _ (by decide) (by decide) (by decide)
+    (.direct _ ⟨"p", "value"⟩ (by decide) (by decide))
 
 end ParamVerif.Depends
